@@ -41,6 +41,7 @@ pub const ALPHABET: &[(char, bool)] = &[
     ('z', true),  // zo-fola
     ('K', true),  // kkha conjunct
     (']', true),  // AU length mark
+    ('e', true),  // empty layout value: nothing changes
 ];
 
 pub struct LayoutMap(pub HashMap<String, String>);
